@@ -145,7 +145,8 @@ void CONodeProcess(CO_NODE *node)
                 (err == CO_ERR_SDO_ABORT)) {
                 (void)COIfCanSend(&node->If, &frm);
             }
-            allowed = 0;
+            srv->Frm = 0;
+            allowed  = 0;
 #if USE_CSDO
         } else {
             csdo = COCSdoCheck(node->CSdo, &frm);
